@@ -130,21 +130,19 @@ func checkNewTable(w *World, r *Result) {
 	if fl == nil {
 		Undecided("NewTable: no loop over struct fields")
 	}
-	guards := leadingGuards(info, fl.rs.Body, fl.subst)
-	want := []string{"!($f.Field.Exported())", "!($f.IsSQLGuard()#1)"}
-	r.cond(setEq(guards, want), "AGR-C08c", fi.Name, "column filter", w.Pos(fl.rs.Pos()),
-		"a field is skipped exactly when it is neither a guard nor exported",
-		"the column filter is {"+strings.Join(guards, ", ")+"} instead of exactly {not a guard, not exported}: columns are dropped or unexported fields become columns")
+	// a column is appended exactly for the fields that are exported or guards, whatever the spelling of the test
+	// (`if !exported && !isGuard {continue}` or `if exported || isGuard {append}`)
 	apps := appendStmts(info, fl.rs.Body, "Columns")
+	var guards []string
+	if len(apps) == 1 {
+		guards = reachConds(info, fi.Decl, fl.rs, apps[0], fl.subst)
+	}
+	want := []string{"($f.Field.Exported() || $f.IsSQLGuard()#1)"}
+	r.cond(setEq(guards, want), "AGR-C08c", fi.Name, "column filter", w.Pos(fl.rs.Pos()),
+		"a field becomes a column exactly when it is a guard or exported",
+		"a column is appended under {"+strings.Join(guards, ", ")+"} instead of exactly {exported or guard}: columns are dropped or unexported fields become columns")
 	okApp := false
 	onlyLeading := true
-	if len(apps) == 1 {
-		for _, c := range pathCondsNoLoop(fi, apps[0]) {
-			if c.exit == nil {
-				onlyLeading = false
-			}
-		}
-	}
 	if len(apps) == 1 && onlyLeading {
 		if lit, ok := apps[0].Rhs[0].(*ast.CallExpr).Args[1].(*ast.CompositeLit); ok {
 			fOK, tOK := false, false
@@ -368,11 +366,16 @@ func checkConstraintFamilies(w *World, r *Result) {
 				conds := pathCondsNoLoop(fi, call)
 				switch f.call {
 				case "generateQuardConstraint":
-					filterOK = len(conds) == 1 && strings.Contains(es(conds[0].expr), "ok")
-					if is := enclosingIf(rs.Body, call); is != nil && is.Init != nil {
-						filterOK = filterOK && strings.Contains(es(is.Init.(*ast.AssignStmt).Rhs[0]), "IsSQLGuard")
-					} else {
-						filterOK = false
+					// the one condition is the comma-ok result of IsSQLGuard() (bound by the if's init or earlier), holding
+					filterOK = false
+					if len(conds) == 1 && conds[0].truth {
+						if id := identOf(conds[0].expr); id != nil {
+							for _, d := range defsIn(info, fi.Decl, objOf(info, id)) {
+								if c2, ok := ast.Unparen(d).(*ast.CallExpr); ok && strings.HasSuffix(fullName(calleeOf(info, c2)), ".IsSQLGuard") {
+									filterOK = true
+								}
+							}
+						}
 					}
 				default:
 					filterOK = len(conds) == 0
